@@ -475,7 +475,15 @@ func (r *c25Rig) exec(g int, op c25Op) string {
 		if loc.disposed.Load() {
 			return ""
 		}
-		np := c25Path(w.src, op.v, g%2 == 1)
+		// prefix #5 only ever carries static paths and the others only BGP paths: a route mixing path
+		// types panics in route.(*Path).ECMP (nil BGPPath of the static path) — not a C25 matter
+		v := op.v
+		if pi == 5 {
+			v = 7
+		} else if v == 7 {
+			v = 6
+		}
+		np := c25Path(w.src, v, g%2 == 1)
 		r.enter(r.objLoc(l))
 		defer r.leave(r.objLoc(l))
 		old := w.direct[l][pi]
@@ -654,6 +662,9 @@ func (r *c25Rig) exec(g int, op c25Op) string {
 		if v == 7 {
 			v = 6 // an AdjRIBIn only holds BGP paths
 		}
+		if pi == 5 {
+			pi, pfx = 4, c25Pfxs[4]
+		}
 		np := c25Path(in.peer, v, g%2 == 1)
 		r.enter(r.objIn(l, g))
 		defer r.leave(r.objIn(l, g))
@@ -661,6 +672,9 @@ func (r *c25Rig) exec(g int, op c25Op) string {
 		in.cur[pi] = np
 		return "in_feed"
 	case c25InWithdraw:
+		if pi == 5 {
+			pi, pfx = 4, c25Pfxs[4]
+		}
 		old := in.cur[pi]
 		if loc.disposed.Load() || old == nil {
 			return ""
